@@ -146,21 +146,23 @@ func runCheck(o checkOpts) (code int) {
 		// Second attempt on the normal form with tail calls inlined (split functions glued together again). The
 		// normalisation preserves behaviour, so a clean result there decides the property for the program as written;
 		// anything else leaves the first result standing.
+		seenForms := map[string]bool{}
 		// levels: (functions inlined in, statement-level too, closures inlined in)
 		type nf struct {
 			fn    string
 			stmts bool
 			cl    string
 		}
-		for li, lv := range []nf{{rootPath, false, ""}, {replPath, false, ""}, {"all", false, ""}, {rootPath, true, ""}, {"all", true, ""},
-			{"", false, rootPath}, {"", false, replPath}, {"", false, "all"}, {rootPath, true, rootPath}, {"all", true, "all"}} {
+		for li, lv := range []nf{{rootPath, false, ""}, {rootPath, true, ""}, {"", false, rootPath}, {"", false, replPath}, {"all", true, "all"}} {
 			level := fmt.Sprintf("functions:%s closures:%s", lv.fn, lv.cl)
 			normInline, normInlineStmts, normInlineClosures = lv.fn, lv.stmts, lv.cl
 			lineOrigins = map[string][]lineOrigin{}
+			normSignature = ""
 			w2 := loadWorld(o.repo, overlay, "")
-			if len(lineOrigins) == 0 {
-				continue
+			if len(lineOrigins) == 0 || seenForms[normSignature] {
+				continue // nothing rewritten, or the same normal form as an earlier level
 			}
+			seenForms[normSignature] = true
 			a2 := newA(w2, o.prop, o.tier)
 			safeRunProp(o.prop, a2)
 			if os.Getenv("GBV_DEBUG_NORM") != "" {
